@@ -43,12 +43,12 @@ CHECKS = {
     },
     "C03": {
         "level": "exploration",
-        "tests": [{"name": "TestC03", "quick": 4000, "thorough": 768000}, {"name": "TestC03Regress", "quick": 0}],
+        "tests": [{"name": "TestC03", "quick": 4000, "thorough": 768000}, {"name": "TestC03Blocks", "quick": 60, "thorough": 5760, "min_per_shard": 20}, {"name": "TestC03Regress", "quick": 0}],
         "assumptions": COMMON_ASSUMPTIONS,
     },
     "C04": {
         "level": "exploration",
-        "tests": fam("C04", (2000, 384000), (20, 3840), (8, 1536), mid=(1000, 192000)),
+        "tests": fam("C04", (2000, 384000), (20, 3840), (8, 1536), mid=(1000, 192000), extra=({"name": "TestC04Big", "quick": 4, "thorough": 192, "min_per_shard": 4},)),
         "assumptions": COMMON_ASSUMPTIONS,
     },
     "C06": {
@@ -69,7 +69,7 @@ CHECKS = {
     },
     "C11": {
         "level": "exploration",
-        "tests": fam("C11", (3000, 576000), (60, 11520), mid=(1000, 192000)),
+        "tests": fam("C11", (3000, 576000), (60, 11520), wide=(8, 768), mid=(1000, 192000), extra=({"name": "TestC11Big", "quick": 4, "thorough": 192, "min_per_shard": 4},)),
         "assumptions": COMMON_ASSUMPTIONS + ["the footer layout is taken from README.md"],
     },
     "C13": {
@@ -145,7 +145,8 @@ CHECKS = {
         "tests": [{"name": "TestC10Golden", "quick": 0},
                   {"name": "TestC10Small", "quick": 1500, "thorough": 288000},
                   {"name": "TestC10Blocks", "quick": 40, "thorough": 7680, "min_per_shard": 20},
-                  {"name": "TestC10Wide", "quick": 15, "thorough": 2880, "min_per_shard": 8}],
+                  {"name": "TestC10Wide", "quick": 15, "thorough": 2880, "min_per_shard": 8},
+                  {"name": "TestC10Big", "quick": 4, "thorough": 192, "min_per_shard": 4}],
         "assumptions": ["the reference is harness/refice: the pinned ice sources at commit 76983be with only the package clause renamed (plus one added export file), compiled into the harness",
                         "facets where the reference itself is defective are excluded by construction and counted in the labels (excluded:*)",
                         "a format change confined to a structure none of the three scenario families produces would pass",
